@@ -336,6 +336,11 @@ func c05Record(c *Ctx, emitRow *ssa.Function, t *taintCtx) {
 			after = append(after, s)
 		}
 	}
+	if len(inLoop) == 0 {
+		if c05JoinShape(c, emitRow, p, sites, colCount, cells, t) {
+			return
+		}
+	}
 	if len(inLoop) != 1 || len(after) != 1 {
 		r.Note(fmt.Sprintf("shape-unrecognised R05.4: %d writes inside loops and %d outside (expected one field write per column and one record terminator)", len(inLoop), len(after)))
 		return
@@ -1039,3 +1044,49 @@ func destinations(call *ssa.Call, filter func(ssa.Instruction) bool) map[string]
 }
 
 var _ = sort.Strings
+
+// c05JoinShape: alternative record shape  Join(quoted cells, sep) + Repeat(sep + empty, columnCount-len(cells)).
+// The field count is right only if the row has at least one cell (Join of nothing is not a field), so that must
+// be provable where the record is assembled; the padding count must be columnCount - len(cells).
+func c05JoinShape(c *Ctx, emitRow *ssa.Function, p *prover, sites []*writeSite, colCount, cells *ssa.Parameter, t *taintCtx) bool {
+	r := c.R
+	name := FuncName(emitRow)
+	var join, rep *ssa.Call
+	eachInstr(emitRow, func(in ssa.Instruction) {
+		if isCallTo(in, "strings", "Join") {
+			join = in.(*ssa.Call)
+		}
+		if isCallTo(in, "strings", "Repeat") {
+			rep = in.(*ssa.Call)
+		}
+	})
+	if join == nil {
+		return false
+	}
+	// the joined slice has one quoted cell per cell
+	n := p.lenOf(join.Call.Args[0])
+	okLen := n.String() == p.lenOf(cells).String()
+	r.Check("R05.4", name, "the joined fields are one per cell of the row", join.Pos(), okLen, "joined slice has length "+n.String())
+	nonEmpty, _ := p.prove(leq(linConst(1), n, "at least one cell"), join, nil, 0)
+	padSep := false
+	if rep != nil {
+		// padding unit begins with the separator?
+		parts := concatParts(rep.Call.Args[0])
+		if len(parts) >= 1 {
+			if f, _ := loadedField(parts[0]); f != nil && !t.fieldTainted(f) {
+				padSep = true
+			}
+			if s, ok := constString(parts[0]); ok && strings.HasPrefix(s, ",") {
+				padSep = true
+			}
+		}
+		cnt := p.linOf(rep.Call.Args[1])
+		want := p.linOf(colCount).sub(p.lenOf(cells))
+		r.Check("R05.4", name, "missing columns are padded: columnCount - len(cells) empty fields", rep.Pos(), cnt.String() == want.String(), "pad count is "+cnt.String())
+	}
+	if padSep {
+		r.Check("R05.4", name, "joining the row's cells yields at least one field before separator-prefixed padding is appended", join.Pos(), nonEmpty,
+			"for a row without cells the record would start with a separator: one field too many, the first one unquoted")
+	}
+	return true
+}
